@@ -167,7 +167,8 @@ def Inv (st : St) : Prop :=
 
 /-! ## printing (driver protocol; the same notation as `TConv.exStr`) -/
 
-def basicNames : List String := ["int", "string", "bool", "float64", "error", "any", "byte", "uint8"]
+def basicNames : List String := ["int", "string", "bool", "float64", "error", "any", "byte", "uint8",
+  "int8", "int64", "uint", "float32", "complex128", "uintptr", "rune", "uint16"]
 
 def nameStr (n : Nat) : String := if n < 16 then basicNames.getD n ("B" ++ toString n) else "N" ++ toString (n - 16)
 
